@@ -105,7 +105,9 @@ def gen_ov(st, tier):
            'nan_component': nan_comp, 'shape2d': shape2d,
            'weight_family': fam, 'weights': gen_weights(d, N, fam),
            'assign': assign, 'checkpoints': sorted(set(cps)),
-           'reuse_buffer': c.random() < 0.4}
+           'reuse_buffer': c.random() < 0.4,
+           # one process without mpi4py at all: taurex.mpi's fall-backs
+           'no_mpi': Rn == 1 and c.random() < 0.5}
     s = st('sched')
     ops = []
     for _ in range(s.randint(2, 12)):
@@ -170,7 +172,18 @@ def exec_ov(case, keep_text=False):
             res.append(ov.parallelVariance())
         return res
 
-    results = world.run(body)
+    if cfg.get('no_mpi') and Rn == 1:
+        # no communicator: the wrappers of taurex/mpi.py take their
+        # "mpi4py is not installed" branches (nothing is serialised)
+        try:
+            world.results[0] = body(0)
+        except Exception as e:      # noqa
+            import traceback
+            world.errors[0] = (e, traceback.format_exc())
+        results = world.results
+        out.bump('probes', 'single_process_without_mpi4py')
+    else:
+        results = world.run(body)
     out.bump('steps', 'collectives', world.ncollectives)
     out.bump('steps', 'accumulator_runs')
     out.bump('faults', 'serialised_bytes', world.bytes_pickled)
